@@ -31,31 +31,65 @@ def run(ctx):
     hh = one_method(chk, "C18.a", p, HL, "handle_http_request")
     if hh and hh.hir:
         h = hh.hir
-        renders = [n for n in calls_in(h) if is_call_to(n, "PrometheusHandle::render")]
+        from facts import walk_deep
+
+        def deep(node):
+            return list(walk_deep(p, node))
+
+        def has_render(node):
+            return any(n.get("k") in ("Call", "MethodCall") and is_call_to(n, "PrometheusHandle::render") for n in deep(node))
+
+        def is_flag(c, negated=False):
+            c = peel(c)
+            if negated:
+                return c.get("k") == "Unary" and c.get("op") == "Not" and is_flag(c.get("a"))
+            return c.get("k") == "Path" and c.get("res") == "local" and c.get("name") == "is_allowed"
+
+        def refusal_ok(node):
+            ns = deep(node)
+            forb = any(n.get("k") == "Path" and (n.get("path") or "").endswith("StatusCode::FORBIDDEN") for n in ns)
+            cs = [n for n in ns if n.get("k") in ("Call", "MethodCall")]
+            empty = any(is_call_to(n, "Default::default", "Full<D>::default", "Empty<D>::new") for n in cs)
+            no_body = not any(is_call_to(n, "PrometheusHandle::render") for n in cs) and not any(n.get("k") == "Lit" and n.get("str") for n in ns)
+            return forb and empty and no_body
+
+        n_render = sum(1 for n in deep(h) if n.get("k") in ("Call", "MethodCall") and is_call_to(n, "PrometheusHandle::render"))
         ifs = [n for n in walk(h) if n.get("k") == "If" and not is_foreign_exp(n.get("exp"))]
-        gate = [n for n in ifs if any(contains_node(n, r) for r in renders)]
-        ok = len(renders) == 1 and len(gate) >= 1
-        detail = ""
-        if ok:
-            g = gate[0] if len(gate) == 1 else sorted(gate, key=lambda n: len(list(walk(n))))[-1]
-            cond = peel(g["cond"])
-            cond_ok = cond.get("k") == "Path" and cond.get("res") == "local" and cond.get("name") == "is_allowed"
-            in_then = contains_node(g["then"], renders[0])
-            ok = cond_ok and in_then
-            detail = f"gate condition is a {cond.get('k')} {cond.get('op', '')} expression" if not cond_ok else "render is on the else edge"
-            if ok:
-                els = g.get("else")
-                forb = els is not None and any(n.get("k") == "Path" and (n.get("path") or "").endswith("StatusCode::FORBIDDEN") for n in walk(els))
-                body_calls = [n for n in calls_in(els)] if els else []
-                empty = any(is_call_to(n, "Default::default") for n in body_calls) or any(is_call_to(n, "Full<D>::default", "Empty<D>::new") for n in body_calls)
-                no_render = els is not None and not any(is_call_to(n, "PrometheusHandle::render") for n in body_calls) and not any(n.get("k") == "Lit" and n.get("str") for n in walk(els))
-                chk.ob("C18.a", f"{hh.path} [refusal]", forb and empty and no_render, "the not-allowed edge answers 403 with an empty body" if forb and empty and no_render else "the not-allowed edge does not answer 403 with an empty body", hh.loc())
-                # every other edge that produces a 200 body is also under the gate: string literals "OK" only inside then
-                oks = [n for n in walk(h) if n.get("k") == "Lit" and n.get("str") == "OK"]
-                health = [a for n in walk(g["then"]) if n.get("k") == "Match" for a in n["arms"] if a["pat"].get("k") == "Lit" and a["pat"].get("str") == "/health"]
-                okh = len(oks) == 1 and contains_node(g["then"], oks[0]) and len(health) == 1 and contains_node(health[0]["body"], oks[0])
-                chk.ob("C18.a", f"{hh.path} [/health]", okh, "/health -> OK, only for allowed peers; any other path -> render" if okh else "/health is not answered `OK` under the allowlist gate", hh.loc())
-        chk.ob("C18.a", f"{hh.path} [gate]", ok, "metrics (and /health) are served only under `if is_allowed`" if ok else f"the response is not gated by exactly the is_allowed flag ({detail}): a peer outside the allowlist can get a 200 answer", hh.loc())
+        ok = False
+        detail = "no `if is_allowed` / `if !is_allowed { return 403 }` around the response"
+        allowed_region = None
+        refusal = None
+        # spelling 1: if is_allowed { serve } else { 403 }
+        for g in ifs:
+            if is_flag(g["cond"]) and has_render(g["then"]) and not (g.get("else") is not None and has_render(g["else"])):
+                allowed_region, refusal = g["then"], g.get("else")
+        # spelling 2: if !is_allowed { return 403 }  ...serve...
+        if allowed_region is None:
+            for blk in [n for n in walk(h) if n.get("k") == "Block"]:
+                stmts = list(blk.get("stmts") or []) + ([blk["expr"]] if blk.get("expr") else [])
+                for i, st in enumerate(stmts):
+                    guards = [n for n in walk(st) if n.get("k") == "If" and is_flag(n["cond"], negated=True) and any(x.get("k") == "Ret" for x in walk(n["then"])) and not has_render(n["then"])]
+                    if guards and not has_render(st) and any(has_render(x) for x in stmts[i + 1:]):
+                        rest = {"k": "Block", "stmts": stmts[i + 1:]}
+                        allowed_region, refusal = rest, guards[0]["then"]
+                        # nothing is served before the guard
+                        if any(has_render(x) for x in stmts[:i]):
+                            allowed_region = None
+                        break
+                if allowed_region is not None:
+                    break
+        if n_render == 1 and allowed_region is not None:
+            ok = True
+            okr = refusal is not None and refusal_ok(refusal)
+            chk.ob("C18.a", f"{hh.path} [refusal]", okr, "the not-allowed edge answers 403 with an empty body" if okr else "the not-allowed edge does not answer 403 with an empty body", hh.loc())
+            oks = [n for n in deep(h) if n.get("k") == "Lit" and n.get("str") == "OK"]
+            in_allowed = [n for n in deep(allowed_region) if n.get("k") == "Lit" and n.get("str") == "OK"]
+            health = [n for n in deep(allowed_region) if n.get("k") == "Lit" and n.get("str") == "/health"]
+            okh = len(oks) == 1 and len(in_allowed) == 1 and len(health) >= 1
+            chk.ob("C18.a", f"{hh.path} [/health]", okh, "/health -> OK, only for allowed peers; any other path -> render" if okh else "/health is not answered `OK` under the allowlist gate", hh.loc())
+        elif n_render != 1:
+            detail = f"{n_render} render() call sites"
+        chk.ob("C18.a", f"{hh.path} [gate]", ok, "metrics (and /health) are served only when is_allowed holds" if ok else f"the response is not gated by exactly the is_allowed flag ({detail}): a peer outside the allowlist can get a 200 answer", hh.loc())
     elif hh:
         chk.unrecognised("C18.a", f"{hh.path} [body]", "no typed tree for the async body", hh.loc())
     pts = one_method(chk, "C18.a", p, HL, "process_tcp_stream")
@@ -102,6 +136,30 @@ def run(ctx):
                         any_ok = any_ok and "ip(" in sym_str(ca[1]) or any_ok and "capture" in repr(ca[1])
             elif mo[0].is_("Result<T, E>::map_or") and from_peer:
                 err_false = strip_sym(a[1])[:3] == ("const", "bool", False)
+        if not mo:
+            # spelled with match / for: decide the same two facts on the control flow
+            from facts import PredFlow
+
+            def csw(subj, variant):
+                if sym_is_call(subj, "TcpStream::peer_addr") and is_param(sym_through(strip_sym(subj)[2][0]), 1):
+                    return {"Ok": "P", "Err": "N"}.get(variant)
+                return None
+
+            pf = PredFlow(cta, csw)
+            on_err = [(i, v) for i, v in rets if pf.at(i) == "N"]
+            err_false = bool(on_err) and all(v[:3] == ("const", "bool", False) for i, v in on_err)
+            cont = [c for c in nonforeign_calls(cta) if callee_method_name(c) == "contains" and "ipnet" in (c.resolved or "")]
+            if len(cont) == 1:
+                ca = [Sym(cont[0].fn).operand(x) for x in cont[0].args]
+                ip_ok = "ip(" in sym_str(ca[1]) and "peer_addr" in sym_str(ca[1])
+                nets_ok = "allowed_addresses" in sym_str(ca[0]) or "next(" in sym_str(ca[0])
+                pc = PredFlow(cont[0].fn, lambda subj, v: None, lambda x: ("P", "N") if sym_is_call(x, "contains") and "ipnet" in str(strip_sym(x)[1]) else None)
+                trues = [(i, v) for i, v in rets if v[:3] == ("const", "bool", True) and not any(lab == "None" and "allowed_addresses" in repr(dd) for dd, lab in gates(b, i))]
+                if cont[0].fn is cta:
+                    any_ok = ip_ok and nets_ok and bool(trues) and all(pc.at(i) == "P" for i, v in trues) and any(v[:3] == ("const", "bool", False) and pf.at(i) != "N" for i, v in rets)
+                else:
+                    names = [callee_method_name(c) for c in nonforeign_calls(cta)]
+                    any_ok = ip_ok and "any" in names and "all" not in names
         panics = [c for c in nonforeign_calls(cta) if callee_method_name(c) in ("unwrap", "expect", "unwrap_unchecked")]
         chk.ob("C18.a", f"{cta.path} [no allowlist -> allowed]", none_true, "without an allowlist every peer is allowed" if none_true else "check_tcp_allowed does not return true when no allowlist is configured", cta.loc())
         chk.ob("C18.a", f"{cta.path} [peer address error -> refused]", err_false and not panics, "a peer whose address cannot be obtained is refused (fail closed), without panicking" if err_false and not panics else "a failing peer_addr() is not mapped to `refuse`: the accept loop either fails open or panics (one reset connection kills the endpoint)", cta.loc())
@@ -132,9 +190,9 @@ def run(ctx):
                     bad.append("?")
             conts = [n for n in walk(lp["body"]) if n.get("k") == "Continue"]
             procs = [n for n in calls_in(lp["body"]) if is_call_to(n, "HttpListeningExporter::process_tcp_stream", "HttpListeningExporter::process_uds_stream")]
-            ok = not bad and len(conts) >= 1 and len(procs) == 1
+            ok = not bad and len(procs) == 1
             detail = f"loop exits: {bad}, continue on accept error: {len(conts)}, per-connection handler calls: {len(procs)}"
-        chk.ob("C18.b", f"{f.path} [accept loop never exits]", ok, "accept errors `continue`; the loop has no return/break/?" if ok else f"the accept loop can terminate ({detail}): a failing accept would stop serving later clients", f.loc())
+        chk.ob("C18.b", f"{f.path} [accept loop never exits]", ok, "the accept loop has no return/break/?: an accept error only skips that connection" if ok else f"the accept loop can terminate ({detail}): a failing accept would stop serving later clients", f.loc())
     for fname in ("process_tcp_stream", "process_uds_stream"):
         f = (p.method(HL, fname) or [None])[0]
         if f is None:
@@ -148,8 +206,8 @@ def run(ctx):
     aa = one_method(chk, "C18.c", p, PB, "add_allowed_address")
     if aa:
         calls = nonforeign_calls(aa)
-        net = [c for c in calls if c.is_("FromStr::from_str") and "IpNet" in (c.resolved or "") + repr(c.t.get("gargs")) + (c.t.get("self_ty") or "")]
-        adr = [c for c in calls if c.is_("FromStr::from_str") and "IpAddr" in (c.resolved or "") + repr(c.t.get("gargs")) + (c.t.get("self_ty") or "")]
+        net = [c for c in calls if c.is_("FromStr::from_str", "str::parse", "<impl str>::parse") and "IpNet" in (c.resolved or "") + repr(c.t.get("gargs")) + (c.t.get("self_ty") or "")]
+        adr = [c for c in calls if c.is_("FromStr::from_str", "str::parse", "<impl str>::parse") and "IpAddr" in (c.resolved or "") + repr(c.t.get("gargs")) + (c.t.get("self_ty") or "")]
         ok = len(net) >= 1 and len(adr) >= 1
         chk.ob("C18.c", f"{aa.path} [both syntaxes]", ok, "tries IpNet::from_str (CIDR) and IpAddr::from_str (plain address)" if ok else f"add_allowed_address parses only {'CIDR' if net else 'plain addresses' if adr else 'nothing'}: the documented 'IP address or subnet' is not accepted", aa.loc())
         conv = [c for c in calls if c.is_("From::from", "Into::into") and "IpNet" in (c.resolved or "") + (c.t.get("self_ty") or "") + repr(c.t.get("gargs"))]
